@@ -452,3 +452,15 @@ def c16(ctx):
                 "several operand orders; TLC validates that constructions giving equal objects print to the same string "
                 "and that parse(str(e)) is the same object as e (close in value when floats are involved)")
     simple(ctx, "MC_C16", "Trace_C16", floor=0.5)
+
+
+@plan("C18")
+def c18(ctx):
+    ctx.rule = ("TLC enumerates every token string up to length 3 (thorough: 4) over 30 tokens (identifiers, numbers, "
+                "operators, brackets, separators, junk and non-ASCII / NUL bytes) plus long nestings, grouped into "
+                "runs of 8 consecutive inputs for one parser object; every input is parsed by the reused object, by "
+                "a fresh parse() and by parse_sbml(); TLC validates that every outcome is an expression or a library "
+                "exception and that the reused object's outcome equals the fresh one at every position; crashes, "
+                "hangs and (thorough tier, ASan+UBSan build) sanitizer reports are attributed to the case")
+    cfg = "asan" if ctx.thorough else "base"
+    simple(ctx, "MC_C18", "Trace_C18", cfg=cfg, floor=0.9)
